@@ -4,6 +4,7 @@ from props.rec_common import *  # noqa: F401,F403
 from props import race_common as rc
 
 ID = "C04"
+LOG_LEVEL_INVARIANT = True      # (harness/vp.py: a sample of the cases again with logging at DEBUG; same observables)
 RUN_MODULE = "RunC04"
 RULE = ("one case = a history of 1-2 recorded operations on one real TapeRecorder; programs from the recorder DSL with "
         "every tolerated fault kind placed at random steps, singly and in combination (key cannot be built: failing "
